@@ -240,7 +240,7 @@ def standin_filtersearch(prop, tier, seed, scratch, root):
     row = {'function': 'Filter::{new,tag,tag_exists,tag_absent,negate,and,not}, <Filter as Argument>::render, Find::command, Command builder, end to end',
            'engine': 'native random differential search against Rust ports of MPD Tokenizer and SongFilter::ParseExpression (replay/src/bin/c11_filter.rs, replay/src/mpdfilter.rs)',
            'label': 'bounded', 'cases': n, 'violations': [],
-           'bound': '%d random trees (depth <= 3, NOT/AND mixes, all five operators, exists/absent shorthands) x 16 value strings (quotes of both kinds, backslashes, parentheses, AND, blanks, empty, non-ASCII); values containing %r skipped (open known findings); seed %d' % (n, skip, 1 + max(seed, 0))}
+           'bound': '%d random trees (depth <= 3, NOT/AND mixes, all five operators, exists/absent shorthands) x values (20 fixed strings: quotes of both kinds, backslashes, parentheses, AND, blanks, empty, non-ASCII; and random strings of <= 7 characters over {a b blank backslash quote apostrophe ( ) e-acute}, so that runs of adjacent special characters occur); values containing %r skipped (open known findings); seed %d' % (n, skip, 1 + max(seed, 0))}
     if not rr.get('ran'):
         row['undecided'] = rr.get('reason', 'did not run'); return row
     try:
